@@ -111,6 +111,7 @@ package revocation
 //@   props C19 C14
 //@   requires ocspConfig != nil
 //@   assigns config.OCSPConfig.DefaultCacheDurationParsed
+//@   ensures[C19,C14] parsed: old(ocspConfig.DefaultCacheDuration) != "" ==> called(ParseDuration#1) && (err == nil) == (res(ParseDuration#1, 1) == nil) && (err == nil ==> ocspConfig.DefaultCacheDurationParsed == res(ParseDuration#1, 0))
 //@   ensures[C19,C14] default_is_zero: old(ocspConfig.DefaultCacheDuration) == "" ==> err == nil && ocspConfig.DefaultCacheDurationParsed == 0
 
 //@ func parseCertFromFile
